@@ -31,8 +31,8 @@ CHECKS = {
             "f64 rounding of individual operations is outside (real relaxation); the two spellings p% / %p are regex; Variable operands (dyn Any downcast) are outside",
             "solver-based: z3 over SMT generated from the MIR of the real functions"),
     "C06": ("M+K", "translation_validation",
-            "convert_money and MoneyItem::calculate for symbolic rates and currencies: amount / rate(A) * rate(B), identity for A = B, left currency kept, scaling by numbers, money/money as plain ratio; CBMC adds kinds/currency identity on all f64; rule wiring: the property's phrases as token lines through rule_tokinizer with config.json's own rule table (dumped natively per run): each phrase is taken by exactly its rule function with the fields bound by name to the right tokens",
-            "rate table lookups are uninterpreted functions of the currency; update_currency histories and literal spellings are outside; f64 rounding outside",
+            "convert_money and MoneyItem::calculate for symbolic rates and currencies: amount / rate(A) * rate(B), identity for A = B, left currency kept, scaling by numbers, money/money as plain ratio; update_currency(name, rate) succeeds exactly for a configured code or alias and changes the (symbolic) rate table at exactly that currency to the new rate, so that with convert_money decided for an arbitrary rate table a changed rate takes effect for exactly that currency in all later conversions; CBMC adds kinds/currency identity on all f64; rule wiring: the property's phrases as token lines through rule_tokinizer with config.json's own rule table (dumped natively per run): each phrase is taken by exactly its rule function with the fields bound by name to the right tokens",
+            "rate table lookups are uninterpreted functions of the currency; literal spellings are outside; f64 rounding outside",
             "solver-based: z3 over SMT generated from the MIR of the real functions"),
     "C18": ("M", "translation_validation",
             "registration bookkeeping: every sequence of <= 4 (quick) / 5 (thorough) calls of add_rule / delete_rule / add_dynamic_type / add_dynamic_type_item with three rule objects whose names are symbolic strings, two languages (one unknown), one family, two indices: return values and resulting rule order / family tables equal a reference list model (add fails only for an unknown language, delete removes the first rule of that name, duplicates rejected without change); API-rule effect: a match calls the rule with fields bound by name and replaces exactly the matched span, a declining rule leaves the line unchanged",
@@ -42,6 +42,10 @@ CHECKS = {
             "formatter::format_number from MIR with float -> decimal text as a contract model ({:.N} gives the digits of |x| 10^N rounded half-even, {} the shortest exact text): for every real |x| < 10^7, digit counts 0..3 (and 10, 19 for |x| < 1000), both zero-removal settings and symbolic separator strings the output is [-] + the integer digits grouped in threes by the thousands separator + [decimal separator + fraction digits], the fraction omitted exactly when removal is on and every printed fraction digit is 0; the same with every float operation of the code carrying a relative error <= 2^-53 (a second, separately rounded computation cannot decide the digits); no panic for any digit count; print of numbers, percentages, money and unit quantities hands its own value, separators and settings to format_number once and composes '%', currency symbol side/blank and the unit format around it",
             "the digit generation of core::fmt (grisu/dragon) is assumed to meet its documentation and is not executed; more than 7 integer digits and, with rounding off, more than 3 fraction digits are outside the bound; values are reals (NaN/inf outside)",
             "solver-based: z3 over SMT generated from the MIR, digit-count shapes enumerated, digits symbolic"),
+    "C08": ("M+D", "translation_validation",
+            "reading: the number / percent / money tokenisers' kernel (one regex match as input; the number group a literal WRITTEN in the configured convention - optional sign, 1..3 digit groups joined by the thousands separator, optional decimal separator and 1..3 fraction digits, digits symbolic; str::replace and f64 parsing modelled on the written text) yields the intended number under both conventions the literal regexes admit ('.' decimal with ',' groups, ',' decimal with '.' groups), so a literal rewritten into the other convention denotes the same value under that configuration; computing: no rule function and no calculate kernel reads the separator settings (symbolic execution of all their paths never touches the two configuration fields), unit conversion - the one computation that re-enters the reader - agrees with the unit definitions under both conventions (engine D, native comparison on all 1089 pairs); printing: format_number inserts the separators between digits that do not depend on them (C07, separators symbolic)",
+            "the regex engine (which texts are matched) is outside; separators other than '.' and ',' cannot occur in literals the patterns admit; f64 rounding outside (real relaxation)",
+            "solver-based: z3 over SMT generated from the MIR with structured literal texts; z3 over config.json's unit programs"),
     "C09": ("K+M", "model_checking",
             "DateItem::calculate on the real chrono: every date of years 1..9999 +- n days (-30 < n < 30, negative counts included) is exactly n days away; + Y years M months keeps the day and moves the month index by 12Y+M inside the stated region (CBMC); small_date accepts exactly the calendar dates and denotes them (z3 over MIR, Gregorian model validated against chrono by CBMC); 'A to B' on dates is the absolute difference; rule wiring: the property's phrases as token lines through rule_tokinizer with config.json's own rule table (dumped natively per run): each phrase is taken by exactly its rule function with the fields bound by name to the right tokens",
             "month/year arithmetic of DateItem::calculate outside the stated region (December landings, day > 28, subtraction across a year boundary, day counts >= 30 that are not month multiples) is NOT claimed: it has defects documented in DESIGN.md section 7; date spellings are regex",
@@ -55,7 +59,7 @@ CHECKS = {
             "chrono modelled as (day number, second of day); chrono::Local modelled as one arbitrary fixed offset; the regex engine itself is outside: a match is an input whose groups satisfy what the patterns guarantee; zone table lookup is data",
             "solver-based: z3 over SMT generated from the MIR with validated chrono models"),
     "C12": ("D", "translation_validation",
-            "all 1089 ordered pairs of the 33 configured units: the composed conversion programs equal the standard definitions, different kinds have no path, round trips and transitivity hold (z3 over exact rationals); the walk model is compared with the native crate on all pairs at two amounts on every run; DynamicTypeItem::calculate converts the right operand into the left unit, keeps the unit when scaling, yields a plain number for a ratio (z3 over MIR, conversion uninterpreted); rule wiring: the property's phrases as token lines through rule_tokinizer with config.json's own rule table (dumped natively per run): each phrase is taken by exactly its rule function with the fields bound by name to the right tokens",
+            "all 1089 ordered pairs of the 33 configured units: the composed conversion programs equal the standard definitions, different kinds have no path, round trips and transitivity hold (z3 over exact rationals); the walk model is compared with the native crate on all pairs at two amounts under both separator conventions ('.' decimal and the default ',' decimal) on every run; DynamicTypeItem::calculate converts the right operand into the left unit, keeps the unit when scaling, yields a plain number for a ratio (z3 over MIR, conversion uninterpreted); rule wiring: the property's phrases as token lines through rule_tokinizer with config.json's own rule table (dumped natively per run): each phrase is taken by exactly its rule function with the fields bound by name to the right tokens",
             "f64 rounding along the chain and separator-dependent re-tokenisation (C08) are outside",
             "solver-based: z3 over the linear programs of config.json + native translator validation"),
     "C13": ("M+K", "translation_validation",
